@@ -7,7 +7,7 @@ let ni n = nat_of_int n
 let pow2 n = Z.pow (zi 2) (zi n)
 
 (* run one history with a step function; returns the outcome string *)
-let run_hist (noop : bool) (step : world -> wop -> (world * out) res) (nslots : int) (ops : string list) : string * bool =
+let run_hist ?(spec_like = false) (noop : bool) (step : world -> wop -> (world * out) res) (nslots : int) (ops : string list) : string * bool =
   let w = ref (world_init (ni 3) (ni nslots) (ni 200)) in
   let buf = Buffer.create 64 in
   let add s = if Buffer.length buf > 0 then Buffer.add_char buf ','; Buffer.add_string buf s in
@@ -69,7 +69,15 @@ let run_hist (noop : bool) (step : world -> wop -> (world * out) res) (nslots : 
              if !ok then (match apply (WRegister (ni (10 + k), ni i, zi (100 + k))) with Some _ -> () | None -> ok := false)
            done;
            if !ok then add "fill=ok" else abort ()
-         | "u" -> (match apply (WUnregister (ni (arg 1))) with Some _ -> add "u=ok" | None -> abort ())
+         | "u" ->
+           (* is the back end asked?  only for a live owner whose sandbox is inside its created window
+              ([spec_like]: an owner of an earlier incarnation is harmless and asks nothing) *)
+           let asked = (match cb_owner_at !w (ni (arg 1)) with
+               | Some (i, k) -> created (int_of_nat i) && (not spec_like || List.exists (fun x -> x = k) (List.nth !w.sbs (int_of_nat i)).ckeys)
+               | None -> false) in
+           (match apply (WUnregister (ni (arg 1))) with
+            | Some _ -> add (if noop then "u=ok" else "u=ok:be" ^ (if asked then "1" else "0"))
+            | None -> abort ())
          | "mc" ->
            let j = arg 1 and j2 = arg 2 in
            if j = j2 || cb_owner_at !w (ni j) <> None then add "mc=skip"
@@ -103,7 +111,7 @@ let handle (toks : string list) : (string * string * string) option =
     let noop = (op = "lifen" || op = "lifed") in      (* the two shipped back ends: 64 slots, no failure injection *)
     let nslots = if noop then 64 else 4 in
     let (m, recr) = run_hist noop (wstep code_move_assign_releases) nslots ops in
-    let (s, _) = run_hist noop wstep_spec nslots ops in
+    let (s, _) = run_hist ~spec_like:true noop wstep_spec nslots ops in
     let cls = op ^ ":len" ^ string_of_int (List.length ops) ^ (if m <> s && recr then ":kf=D12" else "") in
     Some (m, s, cls)
   | _ -> None
